@@ -155,7 +155,7 @@ def gen_uc_case(rng, with_profiles, dst_daily=False):
     chp = rng.random() < 0.4
     fuel = rng.random() < 0.6
     nodes = ['pw'] + (['ht'] if chp else []) + (['fu'] if fuel else [])
-    a = gen.gen_plant(rng, g, 'P', nodes, f, 'pc', chp=chp, simple=False, ramp_profiles=with_profiles)      # 'pc': the plant's own variable generation cost
+    a = gen.gen_plant(rng, g, 'P', nodes, f, 'pc', chp=chp, simple=False, ramp_profiles=(0.75 if with_profiles else False))      # 'pc': the plant's own variable generation cost
     if dst_daily:
         # calendar-day steps of 23 / 24 / 25 h: what is tied to the step LENGTH (capacity, running consumption, running costs) is judged with the real
         # lengths; ramps and durations in steps are not sharply defined on unequal steps and are left out of this family
@@ -180,6 +180,11 @@ def gen_uc_case(rng, with_profiles, dst_daily=False):
             a['min_downtime'] = gen.r2(st_ * (T + int(rng.integers(1, 4))))
     if a['min_cap'] == 0:
         a['min_cap'] = gen.r2(1. * f)
+    if a.get('start_ramp_lower_bounds') and rng.random() < 0.6:
+        # a high minimum output: the profile values lie below it, so following a profile is attractive whenever prices are bad
+        a['min_cap'] = gen.r2(0.7 * a['max_cap'])
+        if not a.get('min_downtime') and rng.random() < 0.6:
+            a['min_downtime'] = gen.r2(float(pd.Timedelta(to_offset(g['freq'])) / pd.Timedelta(1, g['unit'])) * int(rng.integers(2, 4)))
     a['extra_costs'] = gen.pick(rng, [0., 0.5])
     assets = [a, {'type': 'SimpleContract', 'name': 'mkt_pw', 'nodes': ['pw'], 'price': 'pp', 'min_cap': -50. * f, 'max_cap': 50. * f, 'extra_costs': 0.}]
     if chp:
@@ -188,6 +193,11 @@ def gen_uc_case(rng, with_profiles, dst_daily=False):
         assets.append({'type': 'SimpleContract', 'name': 'mkt_fu', 'nodes': ['fu'], 'price': 'pf', 'min_cap': 0., 'max_cap': 500. * f, 'extra_costs': 0.})
     pr = {}
     base = 20 + 15 * np.sin(np.arange(T) * rng.uniform(0.5, 1.5) + rng.uniform(0, 3)) + rng.normal(0, 3, T)
+    if T >= 4 and rng.random() < 0.35:
+        # one or two very bad steps in the middle of good ones: the plant would like to dip below its minimum output without paying for a real stop
+        base = np.abs(base) + 10.
+        for t_ in rng.permutation(np.arange(1, T - 1))[:int(rng.integers(1, 3))]:
+            base[int(t_)] = -float(rng.uniform(50, 200))
     pr['pp'] = [float(x) for x in np.round(base, 2)]
     pr['pc'] = [float(x) for x in np.round(np.abs(rng.normal(3, 1, T)), 2)]
     pr['ph'] = [float(x) for x in np.round(np.abs(rng.normal(8, 4, T)), 2)]
@@ -321,7 +331,9 @@ def run_m6bc(rng, tier, case, reference):
             need = np.maximum(on_i - prev, 0)
             case.check('uc.start_flag', bool(np.all(st >= need)), nonvacuous=need.any(), **who, on=on_i.tolist(), start=st.tolist())
             costly = (a.get('start_costs', 0) or 0) > 0 or ((a.get('start_fuel', 0) or 0) > 0 and 'fu' in a['nodes'] and min(spec['prices']['pf']) > 0)
-            if costly:
+            # (with a start or shutdown profile the flag switches the capacity and ramp rows to the profile: a start flagged while the plant keeps
+            # running would let it dip below min_cap, so the flag must be exact there as well)
+            if costly or k_s or k_d:
                 case.check('uc.start_flag_exact_when_costly', bool(np.array_equal(st, need)), nonvacuous=True, **who, on=on_i.tolist(), start=st.tolist())
         # ramp
         if a.get('ramp') is not None and not (k_s or k_d):
